@@ -5,7 +5,7 @@ import BigtoolsModel.BlockSpan
 import BigtoolsModel.PyBase
 import BigtoolsModel.Cache
 import BigtoolsModel.WigSections
-import BigtoolsModel.AtomsGen
+import BigtoolsModel.AtomsStep
 /-! # C03 — bigWig range queries return exactly the overlapping values, clipped, in order
 
 Property theorems (statements copied from the lemma modules, proofs by those lemmas). -/
